@@ -16,7 +16,7 @@ KeySeq  == <<1, 2, 3, 9>>
 ReqSeq == <<[t |-> 1, sh |-> 1], [t |-> 1, sh |-> 2], [t |-> 1, sh |-> 3],
             [t |-> 2, sh |-> 1], [t |-> 2, sh |-> 2], [t |-> 2, sh |-> 3],
             [t |-> 3, sh |-> 1], [t |-> 3, sh |-> 2], [t |-> 3, sh |-> 3],
-            [t |-> 0, sh |-> 1], [t |-> 9, sh |-> 1]>>
+            [t |-> 0, sh |-> 1], [t |-> 9, sh |-> 1], [t |-> 1, sh |-> 4]>>
 
 Step(r) == IF r.t = NoTid THEN Plain(r.sh)
            ELSE IF r.t = Short THEN Reject(r.t, r.sh)
